@@ -442,6 +442,89 @@ fn venue_sweep(t: &mut Tally) {
     }
 }
 
+/// the Switchboard flavours of the venue-backed setups: value and standard deviation each carry the exchange rate, and
+/// the feed account must be the configured one, owned by the Switchboard program, with the feed's layout, fresh
+fn venue_sweep_switchboard(t: &mut Tally) {
+    let sc = scene(Kind::Swb, Kind::Pyth, "y");
+    let w = &sc.w;
+    let acct = w.users[0].account;
+    let venue_k = key("c09:venue_account:swb");
+    let feed_k = w.banks[0].oracle.unwrap();
+    for venue in ["kamino", "solend", "drift"] {
+        for (rn, rd) in [(2u64, 1u64), (11, 10), (1, 1)] {
+            let mut s0 = sc.s.clone();
+            s0.slot = 777;
+            let (setup, tag, acct_data) = match venue {
+                "kamino" => {
+                    let mut r: kamino_mocks::state::MinimalReserve = bytemuck::Zeroable::zeroed();
+                    r.available_amount = 1_000_000_000 * rn;
+                    r.mint_total_supply = 1_000_000_000 * rd;
+                    r.mint_decimals = 6;
+                    r.slot = s0.slot;
+                    let mut d = kamino_mocks::state::RESERVE_DISCRIMINATOR.to_vec();
+                    d.extend_from_slice(bytemuck::bytes_of(&r));
+                    (OracleSetup::KaminoSwitchboardPull, marginfi_type_crate::constants::ASSET_TAG_KAMINO, Acct::new(1, d, kamino_mocks::ID))
+                }
+                "solend" => {
+                    let mut r: solend_mocks::state::SolendMinimalReserve = bytemuck::Zeroable::zeroed();
+                    r.liquidity_available_amount = 1_000_000_000 * rn;
+                    r.collateral_mint_total_supply = 1_000_000_000 * rd;
+                    r.liquidity_mint_decimals = 6;
+                    r.last_update_slot = s0.slot;
+                    let mut d = solend_mocks::state::RESERVE_DISCRIMINATOR.to_vec();
+                    d.extend_from_slice(bytemuck::bytes_of(&r));
+                    (OracleSetup::SolendSwitchboardPull, marginfi_type_crate::constants::ASSET_TAG_SOLEND, Acct::new(1, d, solend_mocks::ID))
+                }
+                _ => {
+                    let mut m = drift_mocks::state::MinimalSpotMarket::default();
+                    m.cumulative_deposit_interest = (10_000_000_000u128 * rn as u128 / rd as u128).to_le_bytes();
+                    m.decimals = 6;
+                    m.last_interest_ts = s0.now as u64;
+                    let mut d = drift_mocks::state::SPOT_MARKET_DISCRIMINATOR.to_vec();
+                    d.extend_from_slice(bytemuck::bytes_of(&m));
+                    (OracleSetup::DriftSwitchboardPull, marginfi_type_crate::constants::ASSET_TAG_DRIFT, Acct::new(1, d, drift_mocks::ID))
+                }
+            };
+            let venue_owner = acct_data.owner;
+            s0.set(venue_k, acct_data);
+            world::edit_bank(&mut s0, &w.banks[0].key, |b| {
+                b.config.oracle_setup = setup;
+                b.config.oracle_keys[1] = venue_k;
+                b.config.asset_tag = tag;
+            });
+            let e18 = 1_000_000_000_000_000_000i128;
+            for value in [4 * e18, 123_456_789 * e18 / 1_000_000, 40_000 * e18] {
+                for dev_pp in [0i128, 100, 2000, 2551, 2552, 5200] {
+                    let std_dev = value * dev_pp / 100_000;
+                    for cond in ["fresh", "owner_system_program", "owner_venue_program", "owner_this_program", "bad_discriminator", "age_at_limit", "age_over_limit"] {
+                        let mut s = s0.clone();
+                        let mut feed = world::swb_account(value, std_dev, s.now);
+                        match cond {
+                            "owner_system_program" => feed.owner = solana_program::system_program::id(),
+                            "owner_venue_program" => feed.owner = venue_owner,
+                            "owner_this_program" => feed.owner = marginfi::ID,
+                            "bad_discriminator" => feed.data[0] ^= 0xff,
+                            "age_at_limit" => feed = world::swb_account(value, std_dev, s.now - 120),
+                            "age_over_limit" => feed = world::swb_account(value, std_dev, s.now - 121),
+                            _ => {}
+                        }
+                        if cond != "fresh" && dev_pp != 100 {
+                            continue;
+                        }
+                        s.set(feed_k, feed);
+                        forge_positions(&mut s, &acct, (w.banks[0].key, 1000 * 10i128.pow(6)), Some((w.banks[1].key, 3 * 10i128.pow(9))));
+                        let tag = format!("venue_swb:{venue}:{cond}");
+                        let rep = json!({"model": "C09VS", "venue": venue, "rate": [rn, rd], "value": value.to_string(), "dev_pp": dev_pp, "cond": cond});
+                        let p = pulse(w, &s, &acct, None);
+                        t.cells += 1;
+                        judge_pulse(&tag, w, &s, &acct, &p, &rep, t);
+                    }
+                }
+            }
+        }
+    }
+}
+
 // ---------------------------------------------------------------- (B) decision matrix
 
 #[derive(Clone, Debug, PartialEq, Eq)]
@@ -778,6 +861,7 @@ pub fn run(tier: Tier) -> Outcome {
     }
     value_sweep(tier, &mut t);
     venue_sweep(&mut t);
+    venue_sweep_switchboard(&mut t);
     let a_cells = t.cells;
     decision_matrix(tier, &mut t);
     let mut o = Outcome { level: "exploration".into(), ..Default::default() };
